@@ -222,6 +222,15 @@ static void h_assert_pivot_bounds(const dense_t *DL, const dense_t *DU, const de
     if (diag_pref) { int oc = iperm_c[j]; if (oc < m) { int pr = perm_r[oc]; if (pr > j && cnz[pr]) { real_t d = e_abs1(cand[pr]); slusym_assert_or2(1, (double)d, 0.0, 4, (double)d, (double)(u * piv), id_diag); } } }
   }
 }
+/* identical result: same term (identical bits in any IEEE mode); if lazy ite-merging produced a different but equal DAG, the solver must prove equality under the path condition */
+static void h_assert_identical(double a, double b, const char *id) { if (slusym_same(a, b)) slusym_assert_true(1, id); else { slusym_note("identical_by_solver_not_by_term", 1); slusym_assert_zero(a - b, 1.0, id); } }
+static void e_assert_identical(elem_t a, elem_t b, const char *id) {
+#if IS_COMPLEX
+  h_assert_identical((double)a.r, (double)b.r, id); h_assert_identical((double)a.i, (double)b.i, id);
+#else
+  h_assert_identical((double)a, (double)b, id);
+#endif
+}
 static void h_set_tuning(int panel, int relax, int maxsuper, int rowblk, int colblk, int fill) { h_tune[1] = panel; h_tune[2] = relax; h_tune[3] = maxsuper; h_tune[4] = rowblk; h_tune[5] = colblk; h_tune[6] = fill; h_tune[7] = maxsuper; }
 static long h_arg(int argc, char **argv, int i, long dflt) { return (i + 1 < argc) ? strtol(argv[i + 1], 0, 0) : dflt; }
 #endif
